@@ -22,6 +22,8 @@
  *   tree-map      len/mem/get or the in-order contents differ from the reference map (whole keys and whole values: every word)
  *   tree-size     ksize/vsize of the Tree are not the sizes of its key/value types
  *   tree-keyerror KeyError raised for a present key or not raised for an absent one, or another exception
+ *   tree-raise    new / set / assign / copy raised an exception (they have no documented failure on well-typed arguments);
+ *                 the state after the exception is still dumped and checked against the reference map
  *   tree-iter     forward iteration is not the strictly monotone key sequence / backward is not its reverse / no Terminal
  *   tree-order    in-order key sequence of the nodes is not strictly monotone
  *   tree-rb       root red, red node with red child, or unequal black heights
@@ -63,7 +65,8 @@ static var vtype_of(int vw) { return vw == 3 ? V3 : vw == 5 ? V5 : Int; }
 static size_t lineno = 0;
 static int automode = 1;
 static size_t st_ops = 0, st_set_new = 0, st_set_upd = 0, st_rem = 0, st_rem2 = 0, st_remroot = 0, st_remblack = 0,
-  st_keyerr = 0, st_maxn = 0, st_maxh = 0, st_checks = 0, st_iters = 0, st_rem2_wide = 0;
+  st_keyerr = 0, st_maxn = 0, st_maxh = 0, st_checks = 0, st_iters = 0, st_rem2_wide = 0,
+  st_assign_empty = 0, st_assign_one = 0, st_assign_retype = 0;
 
 /* ------------------------------------------------------------------------------------------------ reference map */
 static int ref_cmp(const RefMap* r, const Ent* a, const KeyV* k) {
@@ -450,7 +453,8 @@ int main(int argc, char** argv) {
       }
       items[2+2*np] = Terminal;
       if (trees[T]) { del(trees[T]); trees[T] = NULL; }
-      trees[T] = new_with(Tree, $(Tuple, items));
+      { var exc; V_TRY(exc, trees[T] = new_with(Tree, $(Tuple, items)));
+        if (exc) { X("sig=tree-raise line=%zu what=new raised %s", lineno, v_exc_name(exc)); O("new %s", v_exc_name(exc)); free(items); goto next; } }
       ref_clear(&refs[T]); refs[T].kk = kk; refs[T].vw = vw;
       for (int i = 0; i < np; i++) {
         parse_key(toks[3+2*i], kk, &kv); parse_val(toks[4+2*i], vw, vv);
@@ -466,10 +470,12 @@ int main(int argc, char** argv) {
       if (!parse_key(toks[2], refs[T].kk, &kv) || !parse_val(toks[3], refs[T].vw, vv)) BAD;
       size_t before = len(trees[T]), p;
       int had = ref_find(&refs[T], &kv, &p);
-      set(trees[T], KEYOBJ(refs[T].kk, kv), VALOBJ(refs[T].vw, vv));
+      var exc; V_TRY(exc, set(trees[T], KEYOBJ(refs[T].kk, kv), VALOBJ(refs[T].vw, vv)));
+      if (exc) X("sig=tree-raise line=%zu what=set of a key and a value of the tree's types raised %s", lineno, v_exc_name(exc));
       ref_set(&refs[T], &kv, vv);
       if (had) st_set_upd++; else st_set_new++;
       if (len(trees[T]) != before + (had ? 0 : 1)) X("sig=tree-map line=%zu what=set of %s key changed len from %zu to %zu", lineno, had ? "a present" : "an absent", before, len(trees[T]));
+      if (exc) { O("set %s n=%zu", v_exc_name(exc), len(trees[T])); st_ops++; goto next; }
       dump_state(dump, sizeof dump, trees[T], &refs[T], automode);
       O("set ok %s", dump); st_ops++;
     }
@@ -544,16 +550,23 @@ int main(int argc, char** argv) {
     }
     else if (!strcmp(op, "assign") && ntok == 3) {
       NEED_TREE(1); if (!parse_nat(toks[2], &S) || S >= MAXT || !trees[S]) BAD;
-      assign(trees[T], trees[S]);
+      { struct Tree* sm = trees[S];
+        if (sm->nitems == 0) st_assign_empty++; else if (sm->nitems == 1) st_assign_one++;
+        if (T != S && (refs[T].kk != refs[S].kk || refs[T].vw != refs[S].vw)) st_assign_retype++; }
+      var exc; V_TRY(exc, assign(trees[T], trees[S]));
+      if (exc) X("sig=tree-raise line=%zu what=assign raised %s", lineno, v_exc_name(exc));
       /* the ordered-map meaning of t := t is "unchanged": the reference map stays, the checks below compare */
       if (T != S) ref_copy(&refs[T], &refs[S]);
       dump_state(dump, sizeof dump, trees[T], &refs[T], automode);
-      O("assign ok %s", dump); st_ops++;
+      O("assign %s %s", exc ? v_exc_name(exc) : "ok", dump); st_ops++;
     }
     else if (!strcmp(op, "copy") && ntok == 3) {
       if (!parse_nat(toks[1], &T) || T >= MAXT) BAD;
       if (!parse_nat(toks[2], &S) || S >= MAXT || !trees[S]) BAD;
-      var c = copy(trees[S]);
+      { struct Tree* sm = trees[S];
+        if (sm->nitems == 0) st_assign_empty++; else if (sm->nitems == 1) st_assign_one++; }
+      var c = NULL; var exc; V_TRY(exc, c = copy(trees[S]));
+      if (exc || !c) { X("sig=tree-raise line=%zu what=copy raised %s", lineno, v_exc_name(exc)); O("copy %s", v_exc_name(exc)); goto next; }
       if (T != S) { ref_copy(&refs[T], &refs[S]); }
       if (trees[T]) del(trees[T]);
       trees[T] = c;
@@ -579,8 +592,9 @@ int main(int argc, char** argv) {
   next:
     free(l);
   }
-  I("ops=%zu set_new=%zu set_update=%zu rem=%zu rem_two_children=%zu rem_two_children_ksize_ne_vsize=%zu rem_root=%zu rem_black=%zu keyerror=%zu max_n=%zu max_height=%zu full_checks=%zu",
-    st_ops, st_set_new, st_set_upd, st_rem, st_rem2, st_rem2_wide, st_remroot, st_remblack, st_keyerr, st_maxn, st_maxh, st_checks);
+  I("ops=%zu set_new=%zu set_update=%zu rem=%zu rem_two_children=%zu rem_two_children_ksize_ne_vsize=%zu rem_root=%zu rem_black=%zu keyerror=%zu max_n=%zu max_height=%zu full_checks=%zu assign_copy_from_empty=%zu assign_copy_from_singleton=%zu assign_across_layouts=%zu",
+    st_ops, st_set_new, st_set_upd, st_rem, st_rem2, st_rem2_wide, st_remroot, st_remblack, st_keyerr, st_maxn, st_maxh, st_checks,
+    st_assign_empty, st_assign_one, st_assign_retype);
   for (int i = 0; i < MAXT; i++) if (trees[i]) { del(trees[i]); trees[i] = NULL; }
   return 0;
 }
